@@ -40,6 +40,10 @@ func layoutCase(c *run.Ctx) run.Result {
 			o.checkWeldAfterUnweld(attr, dec)
 		}
 	}
+	o.checkRemoveUnreferencedSequences()
+	if c.Case%2 == 0 {
+		o.checkWeldStrides()
+	}
 	o.finish(m.Topology() == modeling.TriangleTopology)
 	return res
 }
